@@ -646,6 +646,10 @@ class DAGRunConcurrentManager(DAGRunManagerLike):
 
         result = await self._run_dag(dag=case_dag)
 
+        # The selected case may have been executed earlier for another consumer. In that case nothing has been
+        # run here, so the consumers of the switch have to be notified that the switch is resolved.
+        await self.__unlock_descendants(node_id)
+
         if dag.is_oneof and self.__has_subgraph_error(case_dag):
             # Inside a OneOf branch an error is stored as a node result. The nodes of the selected case are not
             # a part of the branch's subgraph, hence the switch node itself has to carry the error, otherwise
